@@ -383,7 +383,10 @@ def routing(repo: Repo, chk: Check) -> None:
         key = f"{GEMMX}:SNAXGEMMXAccelerator:route:{npat}:i{width}"
         try:
             ex = AbsExec(models, attrs=attrs, where=GEMMX)
-            sched_objs = ex.run(gs.node.body, {"self": self_o, gs.params[1]: mkop()})
+            # the module-level default configuration is a DIFFERENT set of streamers than this instance's (from_config builds others)
+            default_o = Obj("Cfg", {"streamers": [Obj("Streamer", {"spatial_dims": [Tok(f"D{i}.sd0"), Tok(f"D{i}.sd1")], "__name__": f"DEFAULT{i}"}) for i in range(n_hw)]})
+            default_o.f["data"] = Obj("CfgData", {"streamers": default_o.f["streamers"]})
+            sched_objs = ex.run(gs.node.body, {"self": self_o, gs.params[1]: mkop(), "default_streamer": default_o})
         except AbsRaise:
             continue  # the accelerator rejects this operation
         except Undecided as e:
@@ -393,10 +396,16 @@ def routing(repo: Repo, chk: Check) -> None:
                 continue
             chk.bad("C02.routing", key, gs.where, f"{case}: get_streamers returns {len(sched_objs) if isinstance(sched_objs, list) else '?'} streamers for {npat} operands")
             continue
+        foreign = [str(s_.f.get("__name__", "?")) if isinstance(s_, Obj) else repr(s_) for s_ in sched_objs if not any(h is s_ for h in hw)]
+        if foreign:
+            chk.bad("C02.routing", key, gs.where,
+                    f"{case}: get_streamers returns streamers {foreign} that are not this accelerator's own (self.streamer_config): a configured gemmx is converted "
+                    "with the port geometry of another configuration (the module default)")
+            continue
         sched = [next(i for i, h in enumerate(hw) if h is s) for s in sched_objs]
         try:
             ex = AbsExec(models, attrs=attrs, where=GEMMX)
-            res = ex.run(sp.node.body, {"self": self_o, sp.params[1]: mkop(), sp.params[2]: list(pats)})
+            res = ex.run(sp.node.body, {"self": self_o, sp.params[1]: mkop(), sp.params[2]: list(pats), "default_streamer": default_o})
         except AbsRaise as e:
             chk.bad("C02.routing", key, sp.where, f"{case}: get_streamers accepts the operation but set_stride_patterns raises ({e})")
             continue
@@ -404,7 +413,8 @@ def routing(repo: Repo, chk: Check) -> None:
             raise AnalysisError(f"set_stride_patterns not analysable for {case}: {e}") from None
         n_cases += 1
         _check_route(chk, key, sp.where, case, sched, n_hw, res, pats, operands)
-    if n_cases < 5:
+    n_bad = sum(1 for i_ in chk.instances if i_.rule == "C02.routing" and not i_.ok)
+    if n_cases + n_bad < 5:
         raise AnalysisError(f"only {n_cases} gemmx routing cases evaluated (5 confirmed by reading)")
     # ---- xDMA extensions
     base = repo.cls(EXT, "StreamerExtension")
